@@ -228,7 +228,6 @@ impl Prop for C19 {
             "cancel_in_read_with_partial_frame_buffered",
             "cancel_in_pong_write_before_first_byte",
             "cancel_in_pong_write_after_partial",
-            "cancel_in_reply_flush",
             "cancel_and_keepalive_same_run",
             "write_and_keepalive_same_run",
         ]
